@@ -31,6 +31,21 @@ CHECKS = {
         technique="contract-based deductive verification: AST->z3 verification conditions (bit-vector value clauses, ground "
                   "type/WF clauses) on the real emission functions and transformer callbacks, modular operand contracts, "
                   "native replay of counter-models"),
+    "C02": dict(
+        category="proof",
+        text="Emission contracts (eval_RzIL(il_exec()) == den, well-sorted, operand texts used once) on the real ArithmeticOp/"
+             "BitOp/CompareOp/BooleanOp/Ternary and callback contracts on every operator production (additive, multiplicative, "
+             "bitwise, shift, unary, relational, equality, logical, conditional): for children of every IR class and all 8x8 "
+             "integer type pairs the built node is well-formed, has the C11 result type and equals the C11 value for ALL "
+             "operand values (z3 bit-vectors; C-side UB excluded by precondition). Depth by structural induction. Refuted "
+             "instances on the pinned tree replay natively and are listed as known findings F2 F3 F4 F5b F21c F22 F23 F24.",
+        design_ref="DESIGN.md section 3, C02",
+        note=TRUST + "add_op through its contract (A-NAMES); child il_read() through the operand contract; T-IND; literal-"
+             "literal operand pairs are C09's folding contract; quick tier uses all type pairs for Variable operands and a "
+             "4-type subset for the other operand-kind pairs, thorough tier is exhaustive over kinds^2 x T8^2.",
+        technique="contract-based deductive verification: AST->z3 verification conditions (bit-vector value clauses, ground "
+                  "type/WF clauses) on the real emission functions and transformer callbacks, modular operand contracts, "
+                  "native replay of counter-models"),
 }
 
 NOT_APPLICABLE = {
